@@ -808,5 +808,6 @@ func (g *Gen) closedElems(h Heap) {
 		return
 	}
 	g.S.declared[key] = true
+	g.Assumed["closed heap: a pointer stored in a slice element of an unknown state (entry, loop head, after a call) is nil or points to an allocated object - Go's memory safety, the quantified form of what is assumed for every pointer the code loads"] = true
 	g.S.assert(fmt.Sprintf("(forall ((r Ref) (i Int)) (! (or (= (select (select %s r) i) null) (select %s (select (select %s r) i))) :pattern ((select (select %s r) i))))", e, a, e, e))
 }
